@@ -44,6 +44,8 @@ def validate_cases(rng, n):
     for _ in range(n):                         # pairs and triples, larger values
         cs = [dict(k=k, n=rng.randint(0, 6)) for k in rng.sample(kinds, rng.randint(0, 3))]
         out.append(dict(kind="validate", val=str(rng.randint(0, 8)), cons=cs))
+    # the same on a point that also says required=false: optional means "may be absent", a value that IS bound is validated
+    out += [dict(c, opt=True) for c in out]
     return out
 
 
@@ -77,6 +79,7 @@ def modifier_cases(rng, n):
         cs = [dict(k=k, n=rng.randint(0, 4)) for k in rng.sample(kinds, rng.randint(0, 2))]
         cs += [dive] + ([om] if rng.random() < 0.3 else []) + [dict(k=k, n=rng.randint(0, 6)) for k in rng.sample(kinds, rng.randint(1, 2))]
         out.append(dict(kind="vslice", xs=xs, cons=cs))
+    out += [dict(c, opt=True) for c in out if c["kind"] in ("validate", "vslice") and rng.random() < 0.5]
     return out
 
 
@@ -94,7 +97,17 @@ def struct_validate_cases(rng, n):
 
 
 def missing_cases():
-    return [dict(kind="missing", tag=t, ftype=ft, required=r) for t in ("value", "prop", "prefix") for ft in FTYPES for r in (True, False)]
+    """a configuration value that is missing, for every tag form x field type x required / optional - also on points that carry a
+    validate argument (varg: "" none, "-" bare `validate` = struct validation, else constraints): nothing is bound, so an
+    optional point stays at its zero value and never fails start-up, whatever the constraints say about zero values"""
+    out = []
+    for t in ("value", "prop", "prefix"):
+        for ft in FTYPES:
+            vargs = [""] + (["-"] if ft in ("struct", "pstruct") else ["required", "min=1"])
+            for r in (True, False):
+                for va in vargs:
+                    out.append(dict(kind="missing", tag=t, ftype=ft, required=r, varg=va))
+    return out
 
 
 def random_reps(rng, n):
